@@ -10,8 +10,41 @@
       ([crel]) at fixed clocks, and what SET / DEL / GET / MGET / SCAN do to it. *)
 From Coq Require Import List ZArith NArith Arith Bool Lia.
 From GL Require Import spec.KV spec.KVRel model.RedisSrv model.RedisKV
-                       proofs.C03_KV proofs.C03_Redis proofs.C02_Contract.
+                       proofs.C03_KV proofs.C02_Contract.
 Import ListNotations.
+
+(** ** keys and patterns inside the common dialect (as in proofs/C03_Redis.v; repeated here so that
+    C02 does not depend on that file) *)
+
+(* no leading slash: rKey strips leading slashes, so "/s" and "s" are one Redis key (known finding D10) *)
+Definition clean (k : list N) : Prop := strip_slashes k = k.
+
+Lemma rKey_clean : forall k, clean k -> rKey k = kvs_prefix ++ k.
+Proof. intros k H. unfold rKey. rewrite H. reflexivity. Qed.
+
+Lemma rKey_eqb : forall k k', clean k -> clean k' -> key_eqb (rKey k) (rKey k') = key_eqb k k'.
+Proof. intros k k' H H'. rewrite !rKey_clean by assumption. reflexivity. Qed.
+
+Lemma unKey_rKey : forall k, clean k -> unKey (rKey k) = k.
+Proof. intros k H. rewrite rKey_clean by assumption. reflexivity. Qed.
+
+(* the pattern reads the same in both glob dialects (no class that starts with ! or ^), no leading slash *)
+Definition pat_ok (p : list N) : Prop :=
+  clean p /\ parse_pat 94 (length p) p = parse_pat 33 (length p) p.
+
+Lemma glob_prefix : forall p k, pat_ok p -> clean k -> glob 94 (rKey p) (rKey k) = matches p k.
+Proof.
+  intros p k [Hc Hp] Hk. rewrite !rKey_clean by assumption.
+  unfold matches, glob. rewrite <- Hp. reflexivity.
+Qed.
+
+Definition op_clean (o : op) : Prop :=
+  match o with
+  | Create k _ _ | Get k | Put k _ _ | CasByVersion k _ _ _ | Delete k => clean k
+  | GetMany ks => Forall clean ks
+  | PutMany rs => Forall (fun r : key * value * option Z => clean (fst (fst r))) rs
+  | ListKeys p => pat_ok p
+  end.
 
 (** ** the keyspace as an association list *)
 Lemma s_lookup_alookup : forall k l, s_lookup k l = alookup k l.
